@@ -11,6 +11,7 @@ import (
 	"fmt"
 	"os"
 	"sort"
+	"strings"
 	"testing"
 	"time"
 
@@ -657,6 +658,17 @@ func (s *sim) Apply(op simcore.Op) bool {
 // lieClass groups falsified fields into violation classes.
 func lieClass(li *lie) string {
 	f := li.field
+	if li.method == "tx" || li.method == "tx_search" {
+		// restated genuine proofs get classes of their own: an audit path does not determine
+		// the tree size, so (index, total) restated TOGETHER is a different matter from an index
+		// restated under the true total
+		switch g := strings.TrimPrefix(f, "tx."); {
+		case g == "proof.restate_total", g == "proof.restate_eq_total" && li.fix >= 2:
+			return "proof.restated-total"
+		case g == "proof.restate_eq_total", g == "proof.restate_index":
+			return "proof.restated-index"
+		}
+	}
 	if li.method == "tx_search" {
 		if len(f) > 10 && f[:10] == "tx.result." {
 			return "result" // same gap as tx.result: results are not tied to LastResultsHash
